@@ -36,7 +36,16 @@ def load_networks():
             with contextlib.redirect_stdout(io.StringIO()):
                 net = network_for_netcode(nm)
         except (ValueError, ImportError):
-            continue   # a symbol whose module cannot be imported here (Groestlcoin family without its C library)
+            # tolerated only when the module itself fails on the missing Groestlcoin hash package
+            import importlib
+            try:
+                with contextlib.redirect_stdout(io.StringIO()):
+                    importlib.import_module("pycoin.symbols." + nm)
+            except ImportError as e:
+                if "groestl" in str(e).lower():
+                    continue
+                raise GenError("symbol %s cannot be imported: %s" % (nm, e))
+            raise GenError("symbol %s is not registered under its own name" % nm)
         out.append((nm, net))
     if len(out) < 10:
         raise GenError("only %d networks could be loaded" % len(out))
